@@ -121,9 +121,10 @@ def coq_pv(o, reg, old=True):
     raise TypeError('coq_pv: unsupported %r' % (t,))
 
 
-def show(o, reg, old_ids=None):
-    """Canonical text of a real object; must agree with CoreValues.show_pv."""
-    f = lambda x: show(x, reg, old_ids)
+def show(o, reg, old_ids=None, sort_sets=False):
+    """Canonical text of a real object; must agree with CoreValues.show_pv.
+    sort_sets: order-insensitive rendering of set/frozenset (their iteration order is not part of the value)."""
+    f = lambda x: show(x, reg, old_ids, sort_sets)
     hx = lambda s: (s.encode('utf-8', 'surrogatepass') if isinstance(s, str) else bytes(s)).hex()
     oc = lambda x: 'O' if (old_ids is not None and id(x) in old_ids) else 'N'
     if o is None: return 'N'
@@ -141,9 +142,15 @@ def show(o, reg, old_ids=None):
     if isinstance(o, tuple) and hasattr(o, '_fields') and t in reg.info:
         return '<%d:%s>' % (reg.info[t]['id'], ''.join(f(x) for x in o))
     if t in SK:
-        return '[' + SKCH[t] + oc(o) + ''.join(f(x) for x in o) + ']'
+        items = [f(x) for x in o]
+        if sort_sets and t in (set, frozenset):
+            items.sort()
+        return '[' + SKCH[t] + oc(o) + ''.join(items) + ']'
     if t in DK:
-        return '{' + DKCH[t] + oc(o) + ''.join(f(k) + f(v) for k, v in o.items()) + '}'
+        items = [f(k) + f(v) for k, v in o.items()]
+        if sort_sets == 'dicts' and t in (dict, collections.defaultdict):
+            items.sort()
+        return '{' + DKCH[t] + oc(o) + ''.join(items) + '}'
     k = tok_kind(o)
     if k and t.__module__ in ('uuid', 'decimal', 'pathlib', 'datetime'):
         return 'K%s%s;' % (TK[k][1], hx(tok_answers(o)[1]))
